@@ -85,7 +85,7 @@ def scenario(name, keys):
     return deco
 
 
-@scenario('add_fp_joliet_parent_missing', ['pycdlib.PyCdlib._add_fp|num_bytes_to_add += self._add_hard_link_to_inode(ino, thislen, fmode, eltorito_catalog, joliet_new_path=joliet_path)'])
+@scenario('add_fp_joliet_parent_missing', ['pycdlib.PyCdlib._add_fp|num_bytes_to_add += self._add_hard_link_to_inode(ino, thislen, fmode, eltorito_catalog, joliet_new_path=joliet_path, continuation=offset > 0)'])
 def s1():
     mk = lambda: base(joliet=3)
     return mk, lambda iso: iso.add_fp(fp(), 1, '/A.;1', joliet_path='/nodir/a')
@@ -177,7 +177,7 @@ def s13():
     return mk, lambda iso: iso.add_symlink('/SYM.;1', 'sym', 'f', udf_symlink_path='/' + 'u' * 300, udf_target='f')
 
 
-@scenario('add_symlink_joliet_on_non_joliet', ['pycdlib.PyCdlib.add_symlink|joliet_path_bytes = self._normalize_joliet_path(joliet_path)'])
+@scenario('add_symlink_joliet_on_non_joliet', [])
 def s14():
     mk = lambda: base(rock_ridge='1.09')
     return mk, lambda iso: iso.add_symlink('/SYM.;1', 'sym', 'f', joliet_path='/sym')
@@ -311,6 +311,26 @@ def s28():
         iso.add_fp(fp(), 1, '/BAR.;1', rr_name='bar')
         return iso
     return mk, lambda iso: iso.add_hard_link(iso_old_path='/BAR.;1', iso_new_path='/FOO', rr_name='foo2')
+
+
+@scenario('relocation_rr_moved_name_taken', ['pycdlib.PyCdlib._find_or_create_rr_moved|num_bytes_to_add = self._add_child_to_dr(rec)'])
+def s29():
+    def mk():
+        iso = base(rock_ridge='1.09')
+        # the user's own entry called RR_MOVED, then a chain deep enough to need relocation
+        iso.add_directory('/RR_MOVED', rr_name='rr_moved')
+        p = ''
+        for i in range(7):
+            p += '/D%d' % i
+            iso.add_directory(p, rr_name='d%d' % i)
+        return iso
+    return mk, lambda iso: iso.add_directory('/D0/D1/D2/D3/D4/D5/D6/D7', rr_name='d7')
+
+
+@scenario('add_symlink_joliet_relative', ['pycdlib.PyCdlib.add_symlink|joliet_path_bytes = self._normalize_joliet_path(joliet_path)'])
+def s31():
+    mk = lambda: base(rock_ridge='1.09', joliet=3)
+    return mk, lambda iso: iso.add_symlink('/SYM.;1', 'sym', 'f', joliet_path='sym')
 
 
 def run(names):
